@@ -1414,6 +1414,16 @@ fn c13(ctx: &mut Ctx) -> Option<Failure> {
         if round == 1 {
             spec = vec![SpecState { trans: vec![((97, 99), 1), ((98, 100), 0)], default: Some(1), fin: false }, SpecState { trans: vec![], default: Some(1), fin: true }];
         }
+        // the complementary class is exactly {MAX_CHAR}: without a default (incomplete), and with one (needed)
+        if round == 2 {
+            spec = vec![SpecState { trans: vec![((0, MAXC - 1), 0)], default: None, fin: true }];
+        }
+        if round == 3 {
+            spec = vec![SpecState { trans: vec![((0, MAXC - 1), 0)], default: Some(1), fin: false }, SpecState { trans: vec![], default: Some(1), fin: true }];
+        }
+        if round == 4 {
+            spec = vec![SpecState { trans: vec![((1, MAXC), 0)], default: Some(1), fin: false }, SpecState { trans: vec![((0, 0), 0), ((1, MAXC - 1), 1)], default: None, fin: true }];
+        }
         let r = ctx.case(|| {
             let mut b = AutomatonBuilder::new(&0u32);
             for q in 1..spec.len() as u32 {
